@@ -21,25 +21,33 @@ def F(rule, construct, stmt, msg, line=None):
 
 
 def check_constants(rep, facts):
+    """The protocol numbers the module names must be the specification's.  A name the module does not define at all is not a wrong
+    number (whatever the requests are built from is folded and checked where it is used); a name that is bound to something the
+    analysis cannot fold is no verdict."""
     consts = facts.consts
     for group in ('requests', 'states', 'status', 'dfuse', 'usb'):
         for name, val in oracle.DFU[group].items():
             have = consts.get(name)
+            if name not in consts:
+                if name in facts.assign_nodes:
+                    rep.undecided('the value of the protocol constant {} (line {}) cannot be folded'.format(name, facts.assign_nodes[name].lineno))
+                continue
             rep.check(have == val, 'R18.1.constants', '{} == {}'.format(name, val),
                       lambda name=name, val=val, have=have: F('R18.1.constants', name, name, '{} is {} but the DFU / DfuSe specification says {}'.format(name, have, val),
                                                               line=facts.assign_nodes[name].lineno if name in facts.assign_nodes else 1), nontrivial=False)
-    states = [consts.get(n) for n in oracle.DFU['states']]
+    states = [consts[n] for n in oracle.DFU['states'] if n in consts]
     rep.check(len(set(states)) == len(states), 'R18.1.constants', 'state numbers pairwise distinct',
               lambda: F('R18.1.constants', 'STATE_*', 'distinct', 'two DFU states share a number', line=1))
 
 
 def check_requests(rep, facts, models):
-    """R18.1: every request on every path is well-formed for its kind."""
+    """R18.1: every request on every path is well-formed for its kind.  A field that cannot be folded to a number is no verdict."""
     seen = {}
+    consts = models[0].consts if models else D.module_consts(facts)
     for m in models:
         for r in m.reqs:
             seen.setdefault((id(r.node), r.kind, r.bmRequestType, r.wValue, repr(r.pack[:2]) if r.pack else None,
-                             D.fold_sym(r.data, facts.consts) if r.kind == 'POLL' and r.data is not None else None), r)
+                             D.fold_sym(r.data, consts) if r.kind == 'POLL' and r.data is not None else None), r)
     kinds = {}
     for r in seen.values():
         kinds[r.kind] = kinds.get(r.kind, 0) + 1
@@ -55,11 +63,17 @@ def check_requests(rep, facts, models):
                 r.request, r.pack[1] if r.pack else None)), instance='unknown request')
             continue
         want_rt = oracle.DFU['bmRequestType_in'] if k == 'POLL' else oracle.DFU['bmRequestType_out']
+        if not isinstance(r.bmRequestType, int) or not isinstance(r.wValue, int):
+            rep.undecided('bmRequestType / wValue of the {} request at line {} cannot be folded to a number'.format(k, r.line))
+            continue
         rep.check(r.bmRequestType == want_rt, 'R18.1.request-type', '{}: bmRequestType 0x{:02x}'.format(k, want_rt),
                   lambda r=r, want_rt=want_rt, node=node, k=k: F('R18.1.request-type', k, node,
                                                                  'bmRequestType is {} but a class/interface {} request is 0x{:02x}'.format(r.bmRequestType, 'IN' if want_rt & 0x80 else 'OUT', want_rt)))
         if k == 'POLL':
-            n = D.fold_sym(r.data, facts.consts) if r.data is not None else None
+            n = D.fold_sym(r.data, consts) if r.data is not None else None
+            if not isinstance(n, int):
+                rep.undecided('the length GETSTATUS asks for (line {}) cannot be folded to a number: {}'.format(r.line, show(r.data)[:60] if r.data is not None else None))
+                continue
             rep.check(n == oracle.DFU['getstatus_len'], 'R18.1.getstatus-len', 'GETSTATUS asks for 6 bytes',
                       lambda node=node, n=n: F('R18.1.getstatus-len', 'POLL', node, 'GETSTATUS reads {} bytes; the status block is 6 bytes'.format(n)))
         if k in ('ERASE', 'SETADDR'):
@@ -74,50 +88,122 @@ def check_requests(rep, facts, models):
                                                'data is downloaded with wValue={}; DfuSe writes at pointer + (wValue - 2) * wLength, and 0 / 1 are reserved for commands'.format(r.wValue)))
 
 
+BWPOLLTIMEOUT = {1: 1, 2: 256, 3: 65536}
+
+
+def milliseconds_of(arg, consts):
+    """The term whose value in milliseconds a sleep argument (seconds) stands for: x / 1000, x * 0.001, x * (1 / 1000)."""
+    arg = strip(arg) if arg is not None else None
+    if arg is None:
+        return None
+    if arg[0] == 'bin' and arg[1] == '/' and D.fold_sym(arg[3], consts) in (1000, 1000.0):
+        return arg[2]
+    if arg[0] == 'bin' and arg[1] == '*':
+        for x, y in ((arg[2], arg[3]), (arg[3], arg[2])):
+            sy = strip(y)
+            if is_const(sy) and sy[1] in (0.001, 1e-3):
+                return x
+            if sy[0] == 'bin' and sy[1] == '/' and D.fold_sym(sy[2], consts) in (1, 1.0) and D.fold_sym(sy[3], consts) in (1000, 1000.0):
+                return x
+    return None
+
+
+def skipped_sleep(conds, r, consts):
+    """A poll that is followed by no sleep on this path: True when the branch conditions between the poll and the next request hold
+    only for a poll delay of zero (a zero delay needs no wait), False when no condition mentions the delay or the conditions
+    also hold for some non-zero delay, None when a condition that mentions the delay cannot be evaluated."""
+    relevant = []
+    for kind, idx, node, (test, pol) in conds:
+        terms = [(t, w) for t, w, uid in D.reply_terms(test, consts) if uid == r.uid and set(w) & set(BWPOLLTIMEOUT)]
+        if terms:
+            relevant.append((test, pol, terms))
+    if not relevant:
+        return False
+    only_zero = False
+    for test, pol, terms in relevant:
+        if any(w != BWPOLLTIMEOUT for _, w in terms):
+            return None
+        outcomes = {}
+        for ms in (0, 1, 2, 255, 256, 999, 1000, 65535, 65536, (1 << 24) - 1):
+            got = D.eval_sym_test(test, {t: ms for t, _ in terms}, consts)
+            if got is None:
+                return None
+            outcomes[ms] = got == pol
+        if not outcomes[0]:
+            return None            # the path condition excludes a zero delay and still there is no sleep: left to the caller
+        if not any(v for ms, v in outcomes.items() if ms):
+            only_zero = True
+    return only_zero
+
+
 def check_poll(rep, facts, models):
     """R18.2: after every GETSTATUS the host sleeps bwPollTimeout (bytes 1..3 of that reply, little endian, ms) before its next request."""
     seen = set()
     n = 0
+    consts = models[0].consts if models else D.module_consts(facts)
     for m in models:
         evs = m.evs
         for j, (kind, idx, node, r) in enumerate(evs):
             if kind != 'REQ' or r.kind != 'POLL':
                 continue
             sleep = None
-            for kind2, idx2, node2, p2 in evs[j + 1:]:
+            guard = None           # (test, polarity) under which the sleep is taken, for a sleep the walk did not fork on
+            conds = []
+            for e2 in evs[j + 1:]:
+                kind2, idx2, node2, p2 = e2
                 if kind2 == 'REQ':
                     break
+                if kind2 == 'COND':
+                    conds.append(e2)
                 if kind2 == 'SLEEP':
                     sleep = (idx2, node2, p2)
                     break
+                if kind2 == 'GSLEEP':
+                    sleep = (idx2, node2, p2[0])
+                    guard = (p2[1], p2[2])
+                    break
             nxt = [e for e in evs[j + 1:] if e[0] == 'REQ']
-            key = (id(r.node), sleep is not None, show(sleep[2])[:200] if sleep else None, bool(nxt))
+            key = (id(r.node), sleep is not None, show(sleep[2])[:200] if sleep else tuple((show(c[3][0])[:80], c[3][1]) for c in conds), bool(nxt),
+                   (show(guard[0])[:120], guard[1]) if guard else None)
             if key in seen:
                 continue
             seen.add(key)
             n += 1
+            if guard is not None and nxt:
+                # the sleep is taken only when `guard` holds: where it does not hold the delay must be zero
+                skipped = skipped_sleep(conds + [('COND', sleep[0], sleep[1], (guard[0], not guard[1]))], r, consts)
+                if skipped is True:
+                    rep.ok('R18.2.sleep', 'no sleep only where bwPollTimeout is zero')
+                elif skipped is None:
+                    rep.undecided('the sleep after GETSTATUS (line {}) is taken under a condition on the poll delay that cannot be evaluated: {}'.format(r.line, show(guard[0])[:80]))
+                else:
+                    rep.fail(F('R18.2.sleep', 'GETSTATUS', r.node,
+                               'the poll delay the device asked for (bwPollTimeout) is waited for only when {}{}: every reply\'s delay must be waited for before the next request'.format(
+                                   '' if guard[1] else 'not ', show(guard[0])[:100])), instance='sleep after poll')
             if sleep is None:
                 if not nxt:
                     continue       # last poll of the run: nothing follows
-                rep.fail(F('R18.2.sleep', 'GETSTATUS', r.node, 'the poll delay the device asked for (bwPollTimeout) is not waited for before the next request'),
-                         instance='sleep after poll')
+                skipped = skipped_sleep(conds, r, consts)
+                if skipped is True:
+                    rep.ok('R18.2.sleep', 'no sleep only on the branch where bwPollTimeout is zero')
+                elif skipped is None:
+                    rep.undecided('a GETSTATUS (line {}) is followed by no sleep on a branch whose condition on the poll delay cannot be evaluated'.format(r.line))
+                else:
+                    rep.fail(F('R18.2.sleep', 'GETSTATUS', r.node, 'the poll delay the device asked for (bwPollTimeout) is not waited for before the next request'),
+                             instance='sleep after poll')
                 continue
-            arg = strip(sleep[2]) if sleep[2] is not None else None
-            ms = None
-            if arg is not None and arg[0] == 'bin' and arg[1] == '/' and D.fold_sym(arg[3], facts.consts) in (1000, 1000.0):
-                ms = arg[2]
-            elif arg is not None and arg[0] == 'bin' and arg[1] == '*':
-                for x, y in ((arg[2], arg[3]), (arg[3], arg[2])):
-                    if is_const(y) and y[1] in (0.001, 1e-3):
-                        ms = x
-            rb = D.reply_bytes(ms, facts.consts) if ms is not None else None
-            if rb is None or 'weights' not in rb:
-                raise AnalysisError('cannot interpret the sleep after GETSTATUS as a function of the reply: {}'.format(show(arg)[:100] if arg else None))
-            rep.check(rb['weights'] == {1: 1, 2: 256, 3: 65536}, 'R18.2.delay', 'slept seconds * 1000 == byte1 | byte2 << 8 | byte3 << 16',
-                      lambda rb=rb, sleep=sleep, r=r: F('R18.2.delay', 'GETSTATUS', r.node,
-                                                        'the sleep is not bwPollTimeout (bytes 1..3 of the reply, little endian, milliseconds): byte weights {}'.format(
-                                                            {k: v for k, v in sorted(rb['weights'].items())})))
-            rep.check(D.reply_uid(rb['reply']) == r.uid, 'R18.2.delay', 'the delay is taken from the reply just received',
+            ms = milliseconds_of(sleep[2], consts)
+            val = D.reply_value(ms, consts) if ms is not None else None
+            if val is None or val[0] != 'int' or val[3] is None:
+                # not understood: no verdict for this rule, and the other rules still run (a violation they establish must not be masked)
+                rep.undecided('cannot interpret the sleep after GETSTATUS as a function of the reply: {}'.format(show(sleep[2])[:100] if sleep[2] is not None else None))
+                continue
+            weights, const, reply = val[1], val[2], val[3]
+            rep.check(weights == BWPOLLTIMEOUT and const == 0, 'R18.2.delay', 'slept seconds * 1000 == byte1 | byte2 << 8 | byte3 << 16',
+                      lambda weights=weights, const=const, r=r: F('R18.2.delay', 'GETSTATUS', r.node,
+                                                                  'the sleep is not bwPollTimeout (bytes 1..3 of the reply, little endian, milliseconds): byte weights {}{}'.format(
+                                                                      {k: v for k, v in sorted(weights.items())}, ' + {}'.format(const) if const else '')))
+            rep.check(D.reply_uid(reply) == r.uid, 'R18.2.delay', 'the delay is taken from the reply just received',
                       lambda r=r: F('R18.2.delay', 'GETSTATUS', r.node, 'the sleep uses the poll timeout of an earlier reply'), nontrivial=False)
     rep.count('poll sites', n)
 
@@ -126,32 +212,47 @@ def check_typestate(rep, facts, models):
     """R18.3: no request while the previous download request has not settled: between a download-class request and the next
     request the path must carry a constraint (loop exit or branch) on the state byte of the *latest* GETSTATUS reply that is
     false when that byte is dfuDNBUSY."""
-    consts = facts.consts
+    consts = models[0].consts if models else D.module_consts(facts)
     busy = oracle.DFU['states']['STATE_DFU_DNBUSY']
     n_req = 0
     n_settle = 0
     loops = {}
+    undecided = set()
+
+    def unsettled(finding, instance, unclear):
+        """The request was not seen to settle: a finding when every test on the way was read, no verdict when one was not."""
+        if unclear is not None:
+            key = (getattr(unclear[0], 'lineno', None), show(unclear[1])[:80])
+            if key not in undecided:
+                undecided.add(key)
+                rep.undecided('whether the device has left dfuDNBUSY is decided by a test the rules cannot read (line {}): {}'.format(*key))
+        else:
+            rep.fail(finding, instance=instance)
+
     for m in models:
         pending = None          # Request not yet settled
         last_poll = None
+        unclear = None          # (node, test) of a test since `pending` that uses the latest reply in a way the rules cannot read
         loop_first_req = {}
         for kind, idx, node, payload in m.evs:
             if kind == 'REQ':
                 r = payload
                 if r.kind == 'POLL':
                     last_poll = r
+                    unclear = None       # whatever was tested before this poll says nothing about its reply
                     continue
                 if r.kind in D.DNLOAD_KINDS or r.kind == 'CLR':
                     n_req += 1
                     if pending is not None:
-                        rep.fail(F('R18.3.settle', 'cli_main', r.site,
-                                   'a {} request is issued while the {} request before it (line {}) has not been polled out of dfuDNBUSY'.format(r.kind, pending.kind, pending.line)),
-                                 instance='{} after {}'.format(r.kind, pending.kind))
+                        unsettled(F('R18.3.settle', 'cli_main', r.site,
+                                    'a {} request is issued while the {} request before it (line {}) has not been polled out of dfuDNBUSY'.format(r.kind, pending.kind, pending.line)),
+                                  '{} after {}'.format(r.kind, pending.kind), unclear)
                     else:
                         rep.ok('R18.3.settle', '{} only when the previous request has settled'.format(r.kind))
                     if r.kind != 'CLR':
                         pending = r
                         last_poll = None
+                        unclear = None
             elif kind in ('COND', 'ENDWHILE', 'ENDWHILE0'):
                 test, pol = payload if kind == 'COND' else (payload, False)
                 if kind != 'COND':
@@ -163,13 +264,13 @@ def check_typestate(rep, facts, models):
                 if not state_terms:
                     if kind != 'COND' and any(w == {4: 1} for t, w, uid in terms):
                         loops[id(node)][2] = 'stale'
+                    if D.unread_reply_use(test, last_poll.uid, consts) or any(uid == last_poll.uid and 4 in w and w != {4: 1} for t, w, uid in terms):
+                        unclear = (node, test)
                     continue
                 subst = {t: busy for t in state_terms}
                 val = D.eval_sym_test(test, subst, consts)
                 if val is None:
-                    others = [t for t, w, uid in terms if w != {4: 1}]
-                    if kind != 'COND':
-                        raise AnalysisError('cannot evaluate the polling-loop condition for state == dfuDNBUSY: {}'.format(show(test)[:100]))
+                    unclear = (node, test)
                     continue
                 if val != pol:
                     # on this path the latest state is not dfuDNBUSY
@@ -181,9 +282,9 @@ def check_typestate(rep, facts, models):
                     loops[id(node)][2] = 'exits-busy'
             elif kind == 'ENDLOOP':
                 if pending is not None and any(lp[1] is node for lp in m.loops_of.get(pending.idx, [])):
-                    rep.fail(F('R18.3.settle', 'cli_main', pending.site,
-                               'the loop goes round to its next request while this {} request has not been polled out of dfuDNBUSY'.format(pending.kind)),
-                             instance='loop-back after {}'.format(pending.kind))
+                    unsettled(F('R18.3.settle', 'cli_main', pending.site,
+                                'the loop goes round to its next request while this {} request has not been polled out of dfuDNBUSY'.format(pending.kind)),
+                              'loop-back after {}'.format(pending.kind), unclear)
                     pending = None
     rep.analysed['requests on paths'] = n_req
     rep.count('settle points', n_settle)
@@ -200,14 +301,28 @@ def check_typestate(rep, facts, models):
                      instance='poll loop {}'.format(verdict))
 
 
+understood = D.understood
+
+
+def other_length_guard(m, sym, before_idx):
+    """Text of a branch condition before `before_idx` that compares the length of a bound buffer other than the flashed one."""
+    for kind, idx, node, payload in m.evs:
+        if kind == 'COND' and idx < before_idx:
+            g = sym.gt(payload[0])
+            if g is not None and not D.mentions(g, LEN) and any(isinstance(s_, tuple) and s_ and s_[0] == 'len' for k in g.terms for s_ in k):
+                return show(payload[0])[:80]
+    return None
+
+
 def check_layout(rep, facts, fn, models):
     """R18.4 - R18.8: addresses, chunks, padding, guard and the variant table, per path that sends a data download."""
-    consts = facts.consts
+    consts = models[0].consts if models else D.module_consts(facts)
     base = oracle.DFU['flash_base']
     seen = set()
     table = {}
     n_pad = 0
     n_paths = 0
+    write_loops = set()        # ids of the For nodes whose body sends the data download, over all paths
 
     def once(*key):
         if key in seen:
@@ -215,164 +330,282 @@ def check_layout(rep, facts, fn, models):
         seen.add(key)
         return True
 
+    def undecided(msg):
+        if once('undecided', msg):
+            rep.undecided(msg)
+
+    erase_loops = set()        # likewise for the erase request
+    for m in models:
+        for r in m.reqs:
+            if r.kind == 'DATA':
+                write_loops.update(id(lp[1]) for lp in m.loops_of.get(r.idx, []))
+            if r.kind == 'ERASE':
+                erase_loops.update(id(lp[1]) for lp in m.loops_of.get(r.idx, []))
+
     for m in models:
         datas = [r for r in m.reqs if r.kind == 'DATA']
         erases = [r for r in m.reqs if r.kind == 'ERASE']
         setaddrs = [r for r in m.reqs if r.kind == 'SETADDR']
         if not datas:
-            if erases and m.p.end != 'raise':
-                # a path that erases but never writes and ends normally
-                if once('erase-only', id(erases[0].node)):
+            if erases and m.p.end != 'raise' and once('erase-only', id(erases[0].node)):
+                # a path that erases but never writes and ends normally: the write loop ran zero times although the erase loop ran
+                ran = [node for kind, idx, node, payload in m.evs if kind == 'LOOP' and id(node) in write_loops]
+                try:
+                    el = m.page_loop(erases[0])
+                    sym = m.base_sym(m.raw())
+                    skipped = [(node, D.loop_range(payload)) for kind, idx, node, payload in m.evs if kind == 'LOOP0' and id(node) in write_loops]
+                    n_e = m.trip_count(el.rng, sym) if el is not None else None
+                    n_w = m.trip_count(skipped[0][1], sym) if skipped and skipped[0][1] is not None else None
+                except D.Undecided:
+                    n_e = n_w = None
+                if ran:
+                    # the write loop did run on this path, and an iteration of it went by without a download
+                    rep.fail(F('R18.4.erase-first', 'cli_main', erases[0].site, 'a run can erase pages and end normally without writing them'), instance='erase-only path')
+                elif n_e is None or n_w is None or not (understood(n_e, sym) and understood(n_w, sym)):
+                    undecided('a path erases pages and ends without writing them, and the trip counts of its erase and write loops cannot be compared')
+                else:
                     rep.fail(F('R18.4.erase-first', 'cli_main', erases[0].site, 'a run can erase pages and end normally without writing them'), instance='erase-only path')
             continue
         n_paths += 1
         d = datas[0]
-        shape = m.data_shape(d)
-        if isinstance(shape, str):
-            if once('shape', shape):
-                rep.fail(F('R18.5.chunk', 'cli_main', d.site, 'the chunk written to a page is not the page-sized slice of the padded image: ' + shape), instance='chunk shape')
-            continue
-        fw, lo, hi, S, raw = shape
-        if raw is None:
-            raise AnalysisError('the buffer sliced by the data download does not lead back to a value read from the file: {}'.format(show(fw)[:80]))
-        wl = m.page_loop(d)
-        if wl is None:
-            if m.loops_of.get(d.idx):
-                raise AnalysisError('cli_main: the data download sits in a loop over {} which is not a range(..) the rules can follow'.format(
-                    show(m.loops_of[d.idx][-1][2])[:80]))
-            if once('noloop', id(d.node)):
-                rep.fail(F('R18.4.same-range', 'cli_main', d.site, 'the data download is not inside a loop over range(pages)'), instance='write loop')
-            continue
-        sym_w = m.sym_for(d, raw)
-        # R18.5 chunk: firmware[PAGE*S : PAGE*S + S], S free of PAGE
-        ok = (not D.mentions(S, PAGE)) and not S.is_zero() and lo == Poly.sym(PAGE) * S
-        if once('chunk', repr(lo), repr(hi)):
-            rep.check(ok, 'R18.5.chunk', 'chunk == padded firmware[page*S : (page+1)*S]',
-                      lambda d=d, lo=lo, hi=hi: F('R18.5.chunk', 'cli_main', d.site,
-                                                  'the chunk written to a page is firmware[{} : {}] instead of the page-sized slice at the same offset as its address'.format(lo, hi)))
-        if not ok:
-            continue
-        # R18.4 addresses
-        for r in erases + setaddrs:
-            sym = m.sym_for(r, raw)
-            pl = m.page_loop(r)
-            got = sym.poly(r.addr) if r.addr is not None else None
-            want = Poly.const(base) + Poly.sym(PAGE) * S
-            if once('addr', r.kind, repr(got), repr(want)):
-                rep.check(pl is not None and got == want, 'R18.4.address', '{} address == 0x08000000 + page * S (S = size of the chunk written)'.format(r.kind),
-                          lambda r=r, got=got, want=want: F('R18.4.address', 'cli_main', r.site, '{} is sent address {} instead of {}'.format(r.kind, got, want)))
-        # R18.4 erase loop completes before the write loop, over the same range
-        wl_idx, wl_node, wl_it, _ = wl
-        er_ok = bool(erases)
-        why = 'no page is erased before the write loop starts'
-        for r in erases:
-            el = m.page_loop(r)
-            if el is None:
-                er_ok, why = False, 'the erase request is not inside a loop over range(pages)'
+        try:
+            shape = m.data_shape(d)
+            if isinstance(shape, str):
+                if once('shape', shape):
+                    rep.fail(F('R18.5.chunk', 'cli_main', d.site, 'the chunk written to a page is not the page-sized slice of the padded image: ' + shape), instance='chunk shape')
                 continue
-            el_idx, el_node, el_it, _ = el
-            end = m.loop_end.get(el_idx)
-            if el_idx == wl_idx:
-                er_ok, why = False, 'pages are erased in the same loop that writes them'
-            elif end is None or end > wl_idx:
-                er_ok, why = False, 'the erase loop has not completed when the write loop starts'
-            elif el_it != wl_it and m.trip_count(el_it, m.sym_for(r, raw)) != m.trip_count(wl_it, sym_w):
-                er_ok, why = False, 'erase loop ranges over {} but write loop over {}'.format(show(el_it), show(wl_it))
-            elif r.idx > d.idx:
-                er_ok, why = False, 'a page is erased after it has been written'
-        if once('erase-first', er_ok, why if not er_ok else ''):
-            rep.check(er_ok, 'R18.4.erase-first', 'one erase loop completes, then the write loop runs over the same range',
-                      lambda d=d, why=why: F('R18.4.erase-first', 'cli_main', d.site, why))
-        for r in setaddrs:
-            sl = m.page_loop(r)
-            if once('setaddr-loop', sl is not None and sl[0] == wl_idx):
-                rep.check(sl is not None and sl[0] == wl_idx and r.idx < d.idx, 'R18.4.address', 'set-address precedes the data download in the same iteration',
-                          lambda r=r: F('R18.4.address', 'cli_main', r.site, 'the address pointer is not set in the iteration that downloads the chunk'), nontrivial=False)
-        if not setaddrs and once('nosetaddr'):
-            rep.fail(F('R18.4.address', 'cli_main', d.site, 'the data download is not preceded by a set-address command'), instance='set-address')
-        rng = wl_it
-        N = m.trip_count(rng, sym_w)
-        if N is None:
-            raise AnalysisError('the number of iterations of {} is not a polynomial the rules can follow'.format(show(rng)[:80]))
-        # R18.6 padding: len(FW) == N*S given LEN = Q*S + R from divmod, zero bytes only
-        dm = [t for a in rng[2] for t in D.find_all(a, lambda t: t[0] == 'unpack' and strip(t[1])[0] == 'call' and strip(t[1])[1] == 'divmod')]
-        if not dm:
-            raise AnalysisError('the page count {} is not derived from divmod(len(firmware), page_size)'.format(show(rng)[:80]))
-        src = dm[0][1]
-        q, r_ = ('unpack', src, '0', 2), ('unpack', src, '1', 2)
-        dargs = strip(src)[2]
-        if len(dargs) != 2:
-            raise AnalysisError('divmod call shape')
-        dm_ok = sym_w.poly(dargs[0]) == Poly.sym(LEN) and sym_w.poly(dargs[1]) == S
-        rep.check(dm_ok, 'R18.6.padding', 'pages, rem = divmod(len(firmware), S)',
-                  lambda d=d, dargs=dargs: F('R18.6.padding', 'cli_main', 'divmod', 'the page count is derived from divmod({}, {}) instead of divmod(len(firmware), page size)'.format(
-                      sym_w.poly(dargs[0]), sym_w.poly(dargs[1])), line=fn.lineno), nontrivial=False)
-        rem_fact = m.p.facts.get(r_)
-        r_zero = bool(rem_fact and rem_fact['eq'] is not None and rem_fact['eq'][1] == 0)
-        Q, R = Poly.sym(q), Poly.sym(r_)
-        total = sym_w.length(fw)
-        diff = (total - N * S).subst(LEN, Q * S + R)
-        if r_zero:
-            diff = diff.subst(r_, Poly.const(0))
-        # a padding loop that ran zero times means its count is zero: reduce modulo that relation
-        for ev in m.p.events:
-            if ev[0] == 'loop0':
-                it = strip(ev[1])
-                if it[0] == 'call' and it[1] == 'range' and len(it[2]) == 1 and it != wl_it:
-                    X = sym_w.poly(it[2][0]).subst(LEN, Q * S + R)
-                    if r_zero:
-                        X = X.subst(r_, Poly.const(0))
-                    for k in (1, -1):
-                        if (diff + X * Poly.const(k)).is_zero():
-                            diff = Poly()
-        if once('pad', repr(diff), r_zero, show(fw)[:80]):
-            n_pad += 1
-            rep.check(diff.is_zero(), 'R18.6.padding', 'rem {} 0: padded length == pages * S'.format('==' if r_zero else '!='),
-                      lambda diff=diff, r_zero=r_zero: F('R18.6.padding', 'cli_main', 'padding (rem {} 0)'.format('==' if r_zero else '!='),
-                                                         'with len(firmware) = q*S + rem the length of the buffer the chunks are sliced from, minus pages*S, is {} (must be 0): the last page is partly written / out of range'.format(diff),
-                                                         line=fn.lineno))
-            rep.check(sym_w.zero_extension(fw), 'R18.6.zeros', 'the image is only ever extended by zero bytes at its end',
-                      lambda: F('R18.6.zeros', 'cli_main', 'padding bytes', 'the firmware image is padded with something other than zero bytes', line=fn.lineno), nontrivial=False)
-        # R18.7 guard: before the first request, LEN - CAP > 0 -> refuse, CAP = S * C
-        first = min(r.idx for r in m.sends) if m.sends else d.idx
-        guards = [g for g in m.capacity(sym_w, first) if g[2] is False]
-        cap = None
-        for idx, node, pol, g in guards:
-            a, b, high = D.split_by(g, LEN)
-            if not high and b == Poly.const(1):
-                cap = -a
-        if once('guard', repr(cap)):
-            rep.check(cap is not None, 'R18.7.in-range', 'size guard len(firmware) > CAP -> refuse precedes the first request',
-                      lambda d=d: F('R18.7.in-range', 'cli_main', 'size guard', 'requests can be sent without the firmware length having been checked against the flash size', line=fn.lineno))
-        if cap is None:
+            fw, lo, hi, S, raw = shape
+            if raw is None:
+                raise D.Undecided('the buffer sliced by the data download does not lead back to a value read from the file: {}'.format(show(fw)[:80]))
+            if once('image', repr(strip(raw))):
+                is_file, what = D.flashed_image_is_file(raw)
+                if is_file is None:
+                    undecided('whether the buffer that is padded and written is the content of the firmware file is not known: ' + what)
+                else:
+                    node_r = next((ev[-1] for ev in m.p.events if ev[0] == 'value' and ev[1] == raw), fn)
+                    rep.check(is_file, 'R18.6.image', 'the buffer that is padded and written is the content of the firmware file',
+                              lambda what=what, node_r=node_r: F('R18.6.image', 'cli_main', node_r,
+                                                                 'the image that is padded and written is not the firmware file but {}: flash will not hold the file'.format(what),
+                                                                 line=getattr(node_r, 'lineno', fn.lineno)))
+            wl = m.page_loop(d, raw)
+            if wl is None:
+                if once('noloop', id(d.node)):
+                    rep.fail(F('R18.4.same-range', 'cli_main', d.site, 'the data download is not inside a loop over range(pages)'), instance='write loop')
+                continue
+            sym_w = m.sym_for(d, raw)
+            # R18.5 chunk: firmware[PAGE*S : PAGE*S + S], S free of PAGE
+            ok = (not D.mentions(S, PAGE)) and not S.is_zero() and lo == Poly.sym(PAGE) * S
+            if not ok and not (understood(lo, sym_w, (PAGE,)) and understood(hi, sym_w, (PAGE,))):
+                undecided('the bounds of the chunk firmware[{} : {}] are not expressions the rules can follow'.format(lo, hi))
+                continue
+            if once('chunk', repr(lo), repr(hi)):
+                rep.check(ok, 'R18.5.chunk', 'chunk == padded firmware[page*S : (page+1)*S]',
+                          lambda d=d, lo=lo, hi=hi: F('R18.5.chunk', 'cli_main', d.site,
+                                                      'the chunk written to a page is firmware[{} : {}] instead of the page-sized slice at the same offset as its address'.format(lo, hi)))
+            if not ok:
+                continue
+            # R18.4 addresses
+            for r in erases + setaddrs:
+                sym = m.sym_for(r, raw)
+                pl = m.page_loop(r, raw)
+                got = sym.poly(r.addr) if r.addr is not None else None
+                want = Poly.const(base) + Poly.sym(PAGE) * S
+                if got is not None and not (got == want) and not understood(got, sym, (PAGE,)):
+                    undecided('the address of the {} request at line {} is not an expression the rules can follow: {}'.format(r.kind, r.line, got))
+                    continue
+                if once('addr', r.kind, repr(got), repr(want)):
+                    rep.check(pl is not None and got is not None and got == want, 'R18.4.address', '{} address == 0x08000000 + page * S (S = size of the chunk written)'.format(r.kind),
+                              lambda r=r, got=got, want=want: F('R18.4.address', 'cli_main', r.site, '{} is sent address {} instead of {}'.format(r.kind, got, want)))
+            # R18.4 erase loop completes before the write loop, over the same range
+            er_ok = bool(erases)
+            why = 'no page is erased before the write loop starts'
+            n_w = m.trip_count(wl.rng, sym_w)
+            if not erases:
+                # the erase loop exists but ran zero times on this path although the write loop ran: their trip counts differ, or are
+                # not comparable
+                skipped = [D.loop_range(payload) for kind, idx, node, payload in m.evs if kind == 'LOOP0' and id(node) in erase_loops and idx < wl.idx]
+                if skipped:
+                    n_e = m.trip_count(skipped[0], sym_w) if skipped[0] is not None else None
+                    if n_e is None or n_w is None or not (understood(n_e, sym_w) and understood(n_w, sym_w)):
+                        raise D.Undecided('the trip counts of the erase loop over {} and the write loop over {} cannot be compared'.format(
+                            show(skipped[0])[:60] if skipped[0] is not None else '?', show(wl.rng)[:60]))
+                    why = ('the erase loop runs {} times but the write loop {} times: every page must be erased and then written exactly once').format(n_e, n_w)
+            for r in erases:
+                el = m.page_loop(r, raw)
+                if el is None:
+                    er_ok, why = False, 'the erase request is not inside a loop over range(pages)'
+                    continue
+                end = m.loop_end.get(el.idx)
+                if el.idx == wl.idx:
+                    er_ok, why = False, 'pages are erased in the same loop that writes them'
+                elif end is None or end > wl.idx:
+                    er_ok, why = False, 'the erase loop has not completed when the write loop starts'
+                elif el.rng != wl.rng:
+                    n_e = m.trip_count(el.rng, m.sym_for(r, raw))
+                    if n_e is None or n_w is None or (not (n_e == n_w) and not (understood(n_e, sym_w) and understood(n_w, sym_w))):
+                        raise D.Undecided('the trip counts of the erase loop over {} and the write loop over {} cannot be compared'.format(show(el.rng)[:60], show(wl.rng)[:60]))
+                    if not (n_e == n_w):
+                        er_ok, why = False, ('the erase loop runs {} times ({}) but the write loop {} times ({}): every page must be erased and then written exactly once '
+                                             '(a page that is only erased keeps 0xff where the padded image has data or zero padding; a page that is only written was not erased)').format(
+                                                 n_e, show(el.rng)[:60], n_w, show(wl.rng)[:60])
+                if er_ok and r.idx > d.idx:
+                    er_ok, why = False, 'a page is erased after it has been written'
+            if once('erase-first', er_ok, why if not er_ok else ''):
+                rep.check(er_ok, 'R18.4.erase-first', 'one erase loop completes, then the write loop runs over the same range',
+                          lambda d=d, why=why: F('R18.4.erase-first', 'cli_main', d.site, why))
+            for r in setaddrs:
+                sl = m.page_loop(r, raw)
+                if once('setaddr-loop', sl is not None and sl.idx == wl.idx):
+                    rep.check(sl is not None and sl.idx == wl.idx and r.idx < d.idx, 'R18.4.address', 'set-address precedes the data download in the same iteration',
+                              lambda r=r: F('R18.4.address', 'cli_main', r.site, 'the address pointer is not set in the iteration that downloads the chunk'), nontrivial=False)
+            if not setaddrs and once('nosetaddr'):
+                rep.fail(F('R18.4.address', 'cli_main', d.site, 'the data download is not preceded by a set-address command'), instance='set-address')
+            rng = wl.rng
+            N = n_w
+            if N is None:
+                raise D.Undecided('the number of iterations of {} is not a polynomial the rules can follow'.format(show(rng)[:80]))
+            # R18.6 padding: len(FW) == N*S given LEN = Q*S + R from a Euclidean division of the path, zero bytes only
+            dms = [dm for dm in sym_w.divmods if dm.q is not None and dm.r is not None and dm.pa == Poly.sym(LEN)]
+            if not dms:
+                others = [dm for dm in sym_w.divmods if dm.q is not None and dm.r is not None]
+                if others and all(understood(dm.pa, sym_w) and understood(dm.pb, sym_w) for dm in others) and D.mentions(sym_w.normal(N), others[0].q):
+                    dm = others[0]
+                    rep.fail(F('R18.6.padding', 'cli_main', 'divmod', 'the page count is derived from divmod({}, {}) instead of divmod(len(firmware), page size)'.format(dm.pa, dm.pb), line=fn.lineno),
+                             instance='pages, rem = divmod(len(firmware), S)')
+                    continue
+                raise D.Undecided('the page count {} is not derived from a division of len(firmware) by the page size (divmod, or // and %)'.format(show(rng)[:80]))
+            dm = dms[0]
+            dm_ok = dm.pb == S
+            if not dm_ok and not (understood(dm.pb, sym_w) and understood(S, sym_w)):
+                undecided('the page size the page count is computed with ({}) and the size of the chunk written ({}) cannot be compared'.format(dm.pb, S))
+                continue
+            rep.check(dm_ok, 'R18.6.padding', 'pages, rem = divmod(len(firmware), S)',
+                      lambda d=d, dm=dm: F('R18.6.padding', 'cli_main', 'divmod', 'the page count is derived from divmod({}, {}) instead of divmod(len(firmware), page size)'.format(
+                          dm.pa, dm.pb), line=fn.lineno), nontrivial=False)
+            if not dm_ok:
+                continue
+            r_zero = dm.r_zero
+            Q = Poly.sym(dm.q)
+            n_norm = sym_w.normal(N)
+            if r_zero is None and dm.r_free:
+                # the path is taken for rem == 0 and for rem != 0 alike, so its page count cannot be right for both
+                if not understood(n_norm, sym_w):
+                    undecided('the page count {} is not an expression the rules can follow'.format(n_norm))
+                    continue
+                if once('pages-free', repr(n_norm)):
+                    rep.fail(F('R18.6.padding', 'cli_main', 'page count',
+                               'the loops run over {} pages whether or not len(firmware) is a multiple of the page size: a firmware of q*S + rem bytes occupies q pages when rem == 0 and q + 1 otherwise'.format(n_norm),
+                               line=fn.lineno), instance='page count independent of rem')
+                continue
+            if r_zero is None:
+                undecided('whether the remainder of len(firmware) / page size is zero on a flashing path is not decided by its branch conditions')
+                continue
+            n_want = Q if r_zero else Q + Poly.const(1)
+            if not (n_norm == n_want):
+                if not understood(n_norm, sym_w):
+                    undecided('the page count {} is not an expression the rules can follow'.format(n_norm))
+                    continue
+                if once('pages', repr(n_norm), r_zero):
+                    rep.fail(F('R18.6.padding', 'cli_main', 'page count (rem {} 0)'.format('==' if r_zero else '!='),
+                               'the loops run over {} pages; a firmware of q*S + rem bytes with rem {} 0 occupies {} pages (q = {})'.format(n_norm, '==' if r_zero else '!=', n_want, Q),
+                               line=fn.lineno), instance='page count (rem {} 0)'.format('==' if r_zero else '!='))
+                continue
+            total = sym_w.length(fw)
+            diff = sym_w.normal(total - N * S)
+            # a padding loop that ran zero times means its count is zero: reduce modulo that relation
+            for ev in m.p.events:
+                if ev[0] == 'loop0':
+                    it = strip(ev[1])
+                    if it[0] == 'call' and it[1] == 'range' and len(it[2]) == 1 and it != wl.rng:
+                        X = sym_w.normal(sym_w.poly(it[2][0]))
+                        for k in (1, -1):
+                            if (diff + X * Poly.const(k)).is_zero():
+                                diff = Poly()
+            if not diff.is_zero() and not understood(diff, sym_w):
+                undecided('the length of the padded image minus pages * page size is {}: not an expression the rules can follow'.format(diff))
+                continue
+            if once('pad', repr(diff), r_zero, show(fw)[:80]):
+                n_pad += 1
+                rep.check(diff.is_zero(), 'R18.6.padding', 'rem {} 0: padded length == pages * S'.format('==' if r_zero else '!='),
+                          lambda diff=diff, r_zero=r_zero: F('R18.6.padding', 'cli_main', 'padding (rem {} 0)'.format('==' if r_zero else '!='),
+                                                             'with len(firmware) = q*S + rem the length of the buffer the chunks are sliced from, minus pages*S, is {} (must be 0): the last page is partly written / out of range'.format(diff),
+                                                             line=fn.lineno))
+                zeros = sym_w.zero_extension(fw)
+                if zeros is None:
+                    undecided('what the firmware image is padded with is not a construction the rules can read: {}'.format(show(fw)[:80]))
+                else:
+                    rep.check(zeros, 'R18.6.zeros', 'the image is only ever extended by zero bytes at its end',
+                              lambda: F('R18.6.zeros', 'cli_main', 'padding bytes', 'the firmware image is padded with something other than zero bytes', line=fn.lineno), nontrivial=False)
+            # R18.7 guard: before the first request, LEN - CAP > 0 -> refuse, CAP = S * C
+            first = min(r.idx for r in m.sends) if m.sends else d.idx
+            guards = [g for g in m.capacity(sym_w, first) if g[2] is False]
+            cap = None
+            for idx, node, pol, g in guards:
+                a, b, high = D.split_by(g, LEN)
+                if not high and b == Poly.const(1):
+                    cap = -a
+            if cap is None and not m.unread_inequalities(sym_w, first) and m.unread_inequalities(sym_w, first, lengths=False) == [] and other_length_guard(m, sym_w, first):
+                undecided('the size guard looks at the length of another buffer ({}) than the one that is padded and written'.format(other_length_guard(m, sym_w, first)))
+                continue
+            if cap is None and m.unread_inequalities(sym_w, first):
+                t = m.unread_inequalities(sym_w, first)[0]
+                undecided('a size comparison before the first request is not one the rules can relate to the firmware length (line {}): {}'.format(
+                    getattr(t[1], 'lineno', '?'), show(t[2])[:80]))
+                continue
+            if once('guard', repr(cap)):
+                rep.check(cap is not None, 'R18.7.in-range', 'size guard len(firmware) > CAP -> refuse precedes the first request',
+                          lambda d=d: F('R18.7.in-range', 'cli_main', 'size guard', 'requests can be sent without the firmware length having been checked against the flash size', line=fn.lineno))
+            if cap is None:
+                continue
+            # R18.8 variant table: the capacity per serial-number letter
+            letter = m.gd32_letter()
+            s_const = S.terms.get((), None) if len(S.terms) == 1 and () in S.terms else None
+            by_key, key = D.table_values(cap, consts)
+            if by_key is not None:
+                # CAP is looked up in a module-level table (bytes, or pages times a constant page size): one capacity per key
+                ks = strip(key)
+                if s_const is None or not (ks[0] == 'sub' and ks[2] == C(2)):
+                    undecided('the flash capacity is looked up in a table by {} with a page size of {}: not the serial-number letter / a constant page size'.format(show(key)[:40], S))
+                    continue
+                if once('guard-cap-table', repr(cap), repr(S)):
+                    bad = {k_: v_ for k_, v_ in by_key.items() if v_ % s_const}
+                    rep.check(not bad, 'R18.7.in-range', 'CAP == S * page_count (all addresses below base + CAP)',
+                              lambda bad=bad, S=S: F('R18.7.in-range', 'cli_main', 'size guard', 'the size guard admits {} bytes, which is not a whole number of pages of {} bytes'.format(
+                                  sorted(bad.values()), S), line=fn.lineno))
+                tl = [D.table_lookup(s_, consts) for mono in cap.terms for s_ in mono if isinstance(s_, tuple)]
+                where = facts.assign_nodes.get(tl[0][0]) if tl and tl[0] else None
+                for k_, v_ in by_key.items():
+                    if v_ % s_const == 0:
+                        table[k_] = (v_ // s_const, s_const, where)
+                continue
+            Cq = D.divide(cap, S)
+            if Cq is None and not (understood(cap, sym_w) and understood(S, sym_w)):
+                undecided('the capacity the size guard admits ({}) is not an expression the rules can follow'.format(cap))
+                continue
+            if once('guard-cap', repr(cap), repr(S)):
+                rep.check(Cq is not None and not D.mentions(Cq, PAGE), 'R18.7.in-range', 'CAP == S * page_count (all addresses below base + CAP)',
+                          lambda cap=cap, S=S: F('R18.7.in-range', 'cli_main', 'size guard', 'the size guard admits {} bytes, which is not a whole number of pages of {} bytes'.format(cap, S), line=fn.lineno))
+            if Cq is None:
+                continue
+            if letter is not None:
+                if len(Cq.terms) <= 1 and all(k == () for k in Cq.terms) and s_const is not None:
+                    table[letter[0]] = (Cq.terms.get((), 0), s_const, letter[1])
+        except D.Undecided as e:
+            undecided(str(e))
             continue
-        Cq = D.divide(cap, S)
-        if once('guard-cap', repr(cap), repr(S)):
-            rep.check(Cq is not None and not D.mentions(Cq, PAGE), 'R18.7.in-range', 'CAP == S * page_count (all addresses below base + CAP)',
-                      lambda cap=cap, S=S: F('R18.7.in-range', 'cli_main', 'size guard', 'the size guard admits {} bytes, which is not a whole number of pages of {} bytes'.format(cap, S), line=fn.lineno))
-        if Cq is None:
-            continue
-        # R18.8 variant table
-        letter = m.gd32_letter()
-        if letter is not None:
-            if len(Cq.terms) <= 1 and all(k == () for k in Cq.terms) and len(S.terms) == 1 and () in S.terms:
-                table[letter[0]] = (Cq.terms.get((), 0), S.terms[()], letter[1])
-        else:
-            for k in Cq.terms:
-                for s_ in k:
-                    tl = D.table_lookup(s_, consts) if isinstance(s_, tuple) else None
-                    if tl is not None and Cq == Poly.sym(s_) and len(S.terms) == 1 and () in S.terms:
-                        name, dct, key = tl
-                        ks = strip(key)
-                        if ks[0] == 'sub' and ks[2] == C(2):
-                            for kk, vv in dct.items():
-                                table[kk] = (vv, S.terms[()], facts.assign_nodes.get(name))
     rep.count('padding cases', n_pad)
     rep.count('flashing paths', n_paths)
-    if not table and n_paths and not rep.findings:
-        raise AnalysisError('cli_main: how the page count of a GD32 part follows from its serial number is not understood (no variant could be read)')
+    if not table:
+        if n_paths and not rep.findings and not rep.__dict__.get('_undecided'):
+            raise AnalysisError('cli_main: how the page count of a GD32 part follows from its serial number is not understood (no variant could be read)')
+        return
     for letter, n in oracle.DFU['gd32_pages'].items():
         have = table.get(letter)
+        if have is None:
+            # no flashing path was read for this letter: the dispatch on the serial number has a spelling the rules did not follow
+            # (or the part is refused) - nothing is known to be wrong
+            rep.undecided('no flashing path could be read for GD32 serial-number letter {!r} (read: {})'.format(letter, ', '.join(sorted(table))))
+            continue
         rep.check(have is not None and have[0] == n and have[1] == oracle.DFU['gd32_page_size'], 'R18.8.variants',
                   'GD32 serial letter {} -> {} pages of {} bytes'.format(letter, n, oracle.DFU['gd32_page_size']),
                   lambda letter=letter, n=n, have=have: F('R18.8.variants', 'cli_main', have[2] if have and have[2] is not None else 'serial number table',
@@ -391,13 +624,16 @@ def run(repo, tier):
                  '(a path constraint on the state byte of the latest reply that is false for dfuDNBUSY); erase loop completes before the '
                  'write loop over the same range; erase / set-address addresses normalise to 0x08000000 + page*S where S is the size of the '
                  'chunk written, and the chunk is the slice at page*S; padding identity len = q*S + r => length of the sliced buffer = '
-                 'pages*S with zero bytes only; size guard with capacity S*C precedes the first request; GD32 variant table.')
+                 'pages*S with zero bytes only, pages = q (+1 when r != 0), the padded buffer is the content of the file; size guard with capacity S*C '
+                 'precedes the first request; GD32 variant table.  Whatever is not read (a request field that does not fold, a loop or a '
+                 'test the rules cannot follow, a residue over terms that are not understood) ends without verdict, never in a finding.')
     rep.trusted_base = ['CPython ast', 'bbverif.pathwalk / poly', 'DFU 1.1 and DfuSe numbers (oracle)']
     rep.not_decided = ['that the *device* ends up holding those bytes under all busy/error schedules (needs a device model and schedule exploration)',
                        'len <= S*C  =>  ceil(len/S) <= C is arithmetic, stated, not checked']
     fn, paths = D.main_paths(facts)
     rep.count('paths through cli_main', len(paths))
-    models = [D.PathModel(p, facts.consts) for p in paths]
+    consts = D.module_consts(facts)
+    models = [D.PathModel(p, consts) for p in paths]
     check_constants(rep, facts)
     check_requests(rep, facts, models)
     check_poll(rep, facts, models)
